@@ -33,7 +33,7 @@ def check(ctx):
     cases = ctx.gen('pardot')
     ev = ctx.exec('pardot', cases)
     ctx.validate('Trace_ParDot', ev, cases, 'pardot', key=lambda e: (e['op'], e['len'], e['nt'], e.get('mode'), e.get('phase'), e['r1']))
-    pairs, short, maxnt, avail = set(), 0, 0, 0
+    pairs, apairs, short, maxnt, avail = set(), set(), 0, 0, 0
     with open(ev) as f:
         for line in f:
             e = json.loads(line)
@@ -41,16 +41,19 @@ def check(ctx):
             maxnt = max(maxnt, e['nt'])
             if e['len'] <= 200 and e['op'] == 'pardot':
                 pairs.add((e['len'], e['nt']))
+                if e.get('phase') == 'alias':
+                    apairs.add((e['len'], e['nt']))
             if e['nt'] != e['want']:
                 short += 1
     full = len([1 for p in pairs if 1 <= p[1] <= 16])
     ctx.notes.append('distinct (length 0..200, observed worker count) pairs executed on integer data: %d of 3216; largest observed worker count %d; CPUs available %d' % (full, maxnt, avail))
+    ctx.notes.append('aliased calls x.dot_f64(&x): %d distinct (length 0..200, worker count) pairs on integer data' % len(apairs))
     if short:
         ctx.assumptions.append('%d runs observed a worker count different from the requested one (fewer CPUs than 16 available): worker counts above %d were not exercised on the real code' % (short, maxnt))
     if full == 3216:
         ctx.exhaustive_parts.append('real code: every length 0..200 x every worker count 1..16 (3216 pairs), three repetitions each')
     return ctx.finish(
-        rule='cases: every (length 0..200, worker count 1..16) pair on integer data (x3 data seeds in thorough); per worker count ~11-39 lengths around the worker count each under busy-loop load, under a narrower affinity '
+        rule='cases: every (length 0..200, worker count 1..16) pair on integer data (x3 data seeds in thorough), each followed by the ALIASED call x.dot_f64(&x) / x.dot(&x) on the same object (exact sum of squares; bit-identical to the two-object call x.dot_f64(&x.clone()), also on float data); per worker count ~11-39 lengths around the worker count each under busy-loop load, under a narrower affinity '
              'than at the first call, and with general float data; random lengths up to 10^5. One event per run. distinct = distinct (kind, length, observed worker count, mode, phase, bit pattern).',
         trusted=['num_cpus::get() observed in-process = worker count used by the call', 'harness projection of f64 to bit pattern and integer', 'TLC', 'double-double reference (general data only)'],
         extra=dict(pairs_covered=full, cpus_available=avail))
